@@ -176,6 +176,9 @@ def check_function(item):
     info = catalogue.decorator_info(fn)
     inner = info["inner"]
     sig = inspect.signature(inner)
+    from checks import c02_tuples
+    if c02_tuples.is_tuple_function(mod, inner):
+        return c02_tuples.check(item)          # fixed-shape tuple parameters / tuple results / Matrix equations
     eqs = [(n, e) for n, e in catalogue.public_equations(mod) if isinstance(e, sp.Equality)]
     if not eqs:
         out.update(verdict="skip", why="module exports no equation object: judged against its law FUNCTION by checks/c02_vecwrap.py")
@@ -608,6 +611,11 @@ def run(ctx):
             ctx.ob(r["name"], v, r["why"])
         else:
             en = r.get("ename")
+            if (en or "").startswith("T:"):
+                from checks import c02_tuples
+                ctx.violation(f"C02:{r['name']}", f"{r['name']}: {r['why']} (leaves {r.get('par2sym')})",
+                              c02_tuples.REPLAY.format(item=tuple(r["item"]), vals=r.get("vals") or {}, ename=en[2:]))
+                continue
             script = REPLAY_F if (en or "").startswith("F:") else REPLAY
             ctx.violation(f"C02:{r['name']}", f"{r['name']}: {r['why']} (mapping {r.get('par2sym')}, returned {r.get('result')})",
                           script.format(item=tuple(r["item"]), vals=r.get("vals") or {}, ename=(en[2:] if (en or "").startswith("F:") else en), magnitude=r.get("magnitude", False)))
